@@ -3,7 +3,7 @@ import GqlModel.Validate.Engine
 namespace Gql.Validate.Rules
 open Gql Gql.Validate
 
-def uniqueFragmentNamesStep (_ : Schema) (_ : QueryDoc) (seen : List Name) (e : Event) : StepOut (List Name) :=
+def uniqueFragmentNamesStep (_ : SV) (_ : QueryDoc) (seen : List Name) (e : Event) : StepOut (List Name) :=
   match e.p with
   | .fragment f _ =>
     .ok (f.name :: seen)
